@@ -314,22 +314,27 @@ func checkC14(p *core.Program, r *core.Report) {
 		if c.Action.Node == nil {
 			continue
 		}
-		info := c.Pkg.TypesInfo
-		var runCall *ast.CallExpr
-		ast.Inspect(c.Action.Node, func(n ast.Node) bool {
-			if call, ok := n.(*ast.CallExpr); ok {
-				if fn, _ := typeutil.Callee(info, call).(*types.Func); fn != nil && fn.Origin() == runFn {
-					runCall = call
-				}
-			}
-			return true
-		})
+		su, runCall, via := servingUnit(ix, c, runFn)
 		if runCall == nil {
 			continue
 		}
 		nCLI++
 		r.AnalysedFn(c.Action.Name)
-		checkCLIStop(p, r, c, runCall, reqFn, awaitFn)
+		if via != nil {
+			// the action must hand the helper's result back: `return helper(…)`
+			r.AnalysedFn(su.Name)
+			returned := false
+			ast.Inspect(c.Action.Node, func(n ast.Node) bool {
+				if ret, ok := n.(*ast.ReturnStmt); ok && len(ret.Results) == 1 && ast.Unparen(ret.Results[0]) == ast.Expr(via) {
+					returned = true
+				}
+				return true
+			})
+			r.Check(returned, "O14.5", "main.cmd:"+c.Name+": result of "+su.Name+" is the action's result", p.Pos(via.Pos()), "return "+su.Name+"(…)", "the serving helper's result is not returned by the action: what happens after the servers stopped is not the helper's verdict")
+		}
+		sc := c
+		sc.Action = su
+		checkCLIStop(p, r, sc, runCall, reqFn, awaitFn)
 	}
 	r.Count("CLI server commands", nCLI)
 	r.Floor("CLI server commands", 2)
@@ -585,34 +590,70 @@ func checkServerClosures(p *core.Program, r *core.Report, u flow.FuncUnit, start
 			r.Check(all, "O14.1", u.Name+": Shutdown on every path of the shutdown closure", p.Pos(shutCall.Pos()), "Shutdown dominates every exit of the closure", "the shutdown closure can finish without calling Shutdown")
 		}
 	}
-	// O14.3
-	var fatal []*ast.CallExpr
+	// O14.3: on the paths on which the serve call returned http.ErrServerClosed (the graceful outcome), no call that
+	// never returns (panic, os.Exit, zerolog Fatal) is reachable. Decided by walking the closure's CFG from the serve call
+	// with the conditions on the error resolved for that value: err != nil holds, err == / errors.Is ErrServerClosed hold.
+	var serveCall *ast.CallExpr
 	ast.Inspect(startLit.Body, func(m ast.Node) bool {
-		if c, ok := m.(*ast.CallExpr); ok && flow.NeverReturns(info, c) {
-			fatal = append(fatal, c)
+		if c, ok := m.(*ast.CallExpr); ok {
+			if fn, ok := typeutil.Callee(info, c).(*types.Func); ok {
+				switch fn.FullName() {
+				case "(*net/http.Server).ListenAndServe", "(*net/http.Server).Serve", "(*net/http.Server).ListenAndServeTLS", "(*net/http.Server).ServeTLS":
+					serveCall = c
+				}
+			}
 		}
 		return true
 	})
-	for _, f := range fatal {
-		guarded := false
-		// enclosing if statements whose then-branch contains f
-		ast.Inspect(startLit.Body, func(m ast.Node) bool {
-			ifs, ok := m.(*ast.IfStmt)
-			if !ok {
-				return true
+	if serveCall != nil {
+		su := flow.FuncUnit{Pkg: u.Pkg, Node: startLit, Name: u.Name + "$start"}
+		g := flow.NewGraph(su)
+		if loc, ok := g.Locate(serveCall); ok {
+			isNil := func(e ast.Expr) bool {
+				id, ok := ast.Unparen(e).(*ast.Ident)
+				return ok && id.Name == "nil" && info.Uses[id] == types.Universe.Lookup("nil")
 			}
-			if !(ifs.Body.Pos() <= f.Pos() && f.End() <= ifs.Body.End()) {
-				return true
+			isErrVar := func(e ast.Expr) bool {
+				v := identVar(info, e)
+				return v != nil && isErrorType(v.Type())
 			}
-			for _, cj := range conjuncts(ifs.Cond) {
-				if isNotErrServerClosed(info, cj) {
-					guarded = true
+			atom := func(e ast.Expr) flow.Tri {
+				e = ast.Unparen(e)
+				switch x := e.(type) {
+				case *ast.BinaryExpr:
+					if x.Op != token.EQL && x.Op != token.NEQ {
+						return flow.Unknown
+					}
+					var val flow.Tri = flow.Unknown
+					switch {
+					case (isErrVar(x.X) && isErrServerClosed(info, x.Y)) || (isErrVar(x.Y) && isErrServerClosed(info, x.X)):
+						val = flow.True // err == ErrServerClosed
+					case (isErrVar(x.X) && isNil(x.Y)) || (isErrVar(x.Y) && isNil(x.X)):
+						val = flow.False // err == nil
+					default:
+						return flow.Unknown
+					}
+					if x.Op == token.NEQ {
+						return val.Not()
+					}
+					return val
+				case *ast.CallExpr:
+					if fn, ok := typeutil.Callee(info, x).(*types.Func); ok && fn.FullName() == "errors.Is" && len(x.Args) == 2 && isErrServerClosed(info, x.Args[1]) {
+						return flow.True
+					}
+				}
+				return flow.Unknown
+			}
+			_, _, calls := g.ReturnsUnderFact(loc, atom)
+			var fatal []string
+			for _, c := range calls {
+				if c != serveCall && flow.NeverReturns(info, c) {
+					fatal = append(fatal, p.Pos(c.Pos()))
 				}
 			}
-			return true
-		})
-		r.Check(guarded, "O14.3", u.Name+": fatal path in start closure", p.Pos(f.Pos()), "fatal only when err != http.ErrServerClosed", "the start closure panics/exits on http.ErrServerClosed too: every graceful shutdown would crash the process")
-		r.Count("fatal paths in start closures", 1)
+			r.Check(len(fatal) == 0, "O14.3", u.Name+": fatal path in start closure", p.Pos(serveCall.Pos()), "no panic/exit is reachable when the serve call returns http.ErrServerClosed", "the start closure panics/exits at "+strings.Join(fatal, ", ")+" also when the serve call returns http.ErrServerClosed: every graceful shutdown would crash the process")
+			r.Count("fatal paths in start closures", 1)
+		}
 	}
 }
 
